@@ -661,6 +661,17 @@ impl GrammarBuilder {
                             if let Some(terminal) = self.terminals.get(name.as_ref()) {
                                 terminal.idx.symbol_index()
                             } else {
+                                // The augmented non-terminals are internal.
+                                if ["AUG", "AUGL"].contains(&name.as_ref().as_str()) {
+                                    err!(
+                                        format!(
+                                            "'{}' is a reserved name and can't be referenced in production '{}'.",
+                                            name, production_str
+                                        ),
+                                        Some(self.file.clone()),
+                                        name.span
+                                    )?;
+                                }
                                 let nt_idx = self
                                     .nonterminals
                                     .get(name.as_ref())
